@@ -169,6 +169,9 @@ func runC09(c *rt.Ctx) {
 			cfgs = append(cfgs, Cfg{Orca: o, Lock: "none", Proto: "binary", L1H: h})
 		}
 	}
+	// the same through the deployment the real main program builds (TTL handling also lives in how
+	// the two ports and their handlers are put together)
+	cfgs = append(cfgs, Cfg{Orca: "l1l2b", Lock: "none", Proto: "binary", L1H: "std", App: true}, Cfg{Orca: "l1l2b", Lock: "multi", Proto: "binary", L1H: "chunked", App: true, Conc: 2})
 	depth := 3
 	if c.Thorough() {
 		depth = 5
